@@ -257,8 +257,11 @@ def build_tensors(layout, contents, gseed, perm_seed=None, expand_query=False, e
 # ---------------------------------------------------------------------------------------------
 # building the module
 # ---------------------------------------------------------------------------------------------
-def build_module(p, dim, seed):
-    """-> (module, info).  info['bias_present'] for mha"""
+def build_module(p, dim, seed, shared_kv=False):
+    """-> (module, info).  info['bias_present'] for mha.
+    shared_kv (mha only): the module for ONE tensor serving as key and as value -- its features are the key features
+    followed by the value features, W^K reads the first part and W^V the second (zero columns elsewhere), so that
+    module(query, kv, kv, mask) computes exactly what module(query, key, value, mask) computes"""
     from pydrobert.torch import modules as M
 
     g = torch.Generator().manual_seed(seed)
@@ -285,13 +288,19 @@ def build_module(p, dim, seed):
             raise MachineryError("model uses d_q = d_k")
         use = set(p["use"])
         single = M.DotProductSoftAttention(dq, dim, float(p["s"]))
-        m = M.MultiHeadedAttention(2, 2, 2, H, single, out_size=len(p["WC"]), d_v=dv,
+        kvs = 4 if shared_kv else 2
+        m = M.MultiHeadedAttention(2, kvs, kvs, H, single, out_size=len(p["WC"]), d_v=dv,
                                    bias_WQ="Q" in use, bias_WK="K" in use, bias_WV="V" in use, bias_WC="C" in use)
         present = {}
         with torch.no_grad():
             for name, W, b in (("Q", p["WQ"], p["bQ"]), ("K", p["WK"], p["bK"]), ("V", p["WV"], p["bV"])):
                 lin = getattr(m, "W" + name)
-                lin.weight.copy_(torch.tensor([row for h in W for row in h], dtype=torch.float32))
+                rows = [list(row) for h in W for row in h]
+                if shared_kv and name == "K":
+                    rows = [r + [0, 0] for r in rows]
+                elif shared_kv and name == "V":
+                    rows = [[0, 0] + r for r in rows]
+                lin.weight.copy_(torch.tensor(rows, dtype=torch.float32))
                 present[name] = lin.bias is not None
                 # a bias is written only where one was REQUESTED and exists; an unrequested bias
                 # parameter keeps the library's own (random) initialisation
@@ -380,13 +389,28 @@ def run_case(ctx, oracle, layout, pid, contents, seed, use_mask=True, replaying=
     else:
         L = LONG_L[(seed // 2) % len(LONG_L)]
         variants.append(("replicated_long", dict(gseed=seed + 23, long=dict(L=L, mode=REPLICA_MODES[(seed // 16) % len(REPLICA_MODES)]))))
+    shared = None
+    if p["fl"] == "mha" and layout["kshape"][-1] == 2 and layout["vshape"][-1] == 2:
+        # self-attention style: ONE tensor object given as key and as value (att(q, enc, enc, mask))
+        try:
+            shared = build_module(p, dim, seed, shared_kv=True)[0]
+            variants.append(("key_is_value", dict(gseed=seed + 29)))
+        except MachineryError:
+            raise
+        except Exception as ex:
+            _viol(ctx, dict(sigbase, kind="exception", where="constructor", exc=type(ex).__name__), "raised %r" % ex, case)
+            return False
     first_bad = None
     for name, kw in variants:
         t0 = time.time()
         q, k, v, m = build_tensors(layout, contents, **kw)
         try:
             with torch.no_grad():
-                out = module(q, k, v, m if use_mask else None)
+                if name == "key_is_value":
+                    kv = torch.cat([k, v], -1)
+                    out = shared(q, kv, kv, m if use_mask else None)
+                else:
+                    out = module(q, k, v, m if use_mask else None)
             if "long" in kw:
                 ctx.extra["long_variant_s"] = round(ctx.extra.get("long_variant_s", 0.0) + time.time() - t0, 4)
                 ctx.extra["long_variants"] = ctx.extra.get("long_variants", 0) + 1
@@ -406,7 +430,8 @@ def run_case(ctx, oracle, layout, pid, contents, seed, use_mask=True, replaying=
                 kind = {"garbageB": "masked_content_dependence", "garbageX": "masked_content_dependence",
                         "offset-": "score_offset_dependence", "offset+": "score_offset_dependence", "permuted": "permutation_dependence",
                         "expanded": "broadcast_differs_from_expand", "embedded_long": "long_sequence_embedding",
-                        "replicated_long": "long_sequence_replication"}[name]
+                        "replicated_long": "long_sequence_replication",
+                        "key_is_value": "key_and_value_one_tensor"}[name]
             elif dim < 0:
                 kind = "value_negative_dim"
             elif p["fl"] == "mha" and set(bias_mismatch) & set("QVC"):
